@@ -160,7 +160,7 @@ pub fn run_plan_realfs(plan: &SimPlan) -> PlanResult {
                 // changed since it last looked (the same job again); process-
                 // wide state (statics, thread-locals) is still exercised by
                 // every later assembly, with a fresh server object.
-                let same_as_prev = pos > 0 && plan.jobs[tp.jobs[pos - 1]].disk == job.disk;
+                let same_as_prev = pos > 0 && plan.jobs[tp.jobs[pos - 1]].disk == job.disk && plan.jobs[tp.jobs[pos - 1]].use_std == job.use_std;
                 let reuse = tp.reuse.get(pos).copied().unwrap_or(false) && server.is_some() && same_as_prev;
                 let mut fs = match (reuse, server.take()) {
                     (true, Some(s)) => s,
